@@ -1,20 +1,21 @@
 #!/bin/bash
 # usage: try_seed.sh <worktree dir or id (C01 -> /tmp/wt_C01)> <seed-dir-name> <check ids...>
-# copies the sub-agent's deliverables into /verif/seeded/<name>/, applies the patch to /repo, runs the named checks (quick),
-# runs the demonstration with and without the patch, restores /repo.
+# copies the sub-agent's deliverables into /verif/seeded/<name>/, applies the patch to a SCRATCH worktree of /repo (HEAD),
+# runs the named checks (quick) against it (VERIF_REPO), runs the demonstration against the scratch tree (expected exit 1)
+# and against /repo (expected exit 0).  /repo itself is never modified.
 if [ -d "$1" ]; then WT=$1; else WT=/tmp/wt_$1; fi; NAME=$2; shift 2
 D=/verif/seeded/$NAME; mkdir -p $D
 [ -f $WT/seeded.diff ] && cp $WT/seeded.diff $D/patch.diff
 cp $WT/demo_*.py $D/ 2>/dev/null; cp $WT/notes.md $D/ 2>/dev/null
 DEMO=$(ls $D/demo_*.py | head -1)
-if [ -n "$(git -C /repo status --short | grep -v '^??')" ]; then echo "REPO DIRTY - abort"; exit 3; fi
-git -C /repo apply $D/patch.diff || { echo "apply failed"; exit 3; }
+S=/tmp/tryseed_wt_$$
+git -C /repo worktree add --detach -q $S HEAD || exit 3
+git -C $S apply $D/patch.diff || { echo "apply failed"; git -C /repo worktree remove --force $S; exit 3; }
 R=/tmp/seedrun_$$; mkdir -p $R; cp $DEMO $R/
 for c in "$@"; do
-  ( cd /verif; VERIF_EVID=/tmp/evid_seed /venv/bin/python -m vlib.run $c --tier quick > $R/$c.log 2>&1; echo "check $c rc=$? : $(grep -m2 VIOLATION $R/$c.log | cut -c1-200)"; tail -1 $R/$c.log | cut -c1-200 )
+  ( cd /verif; VERIF_REPO=$S VERIF_EVID=/tmp/evid_seed /venv/bin/python -m vlib.run $c --tier quick > $R/$c.log 2>&1; echo "check $c rc=$? : $(grep -m2 VIOLATION $R/$c.log | cut -c1-200)"; tail -1 $R/$c.log | cut -c1-200 )
 done
-( cd $R; PYTHONPATH=/repo timeout 900 /venv/bin/python $(basename $DEMO) > demo_with.log 2>&1; echo "demo with patch rc=$?"; tail -2 demo_with.log | cut -c1-200 )
-git -C /repo checkout -- .
+( cd $R; PYTHONPATH=$S timeout 900 /venv/bin/python $(basename $DEMO) > demo_with.log 2>&1; echo "demo with patch rc=$?"; tail -2 demo_with.log | cut -c1-200 )
 ( cd $R; PYTHONPATH=/repo timeout 900 /venv/bin/python $(basename $DEMO) > demo_without.log 2>&1; echo "demo without patch rc=$?"; tail -1 demo_without.log | cut -c1-200 )
-git -C /repo status --short | grep -v '^??'
+git -C /repo worktree remove --force $S
 echo "logs in $R"
